@@ -56,10 +56,10 @@ type FSWorld struct {
 	viol  string
 	C15   bool
 
-	inProcess   bool
-	removedNow  []*fsFile
-	createdNow  []*fsFile
-	renamedNow  []*fsFile
+	inProcess  bool
+	removedNow []*fsFile
+	createdNow []*fsFile
+	renamedNow []*fsFile
 	// reference model
 	mOpen      bool
 	mBytes     int64
